@@ -101,5 +101,103 @@ def register (tbl : Table) (m path : String) (item : Option H) : RegVerdict × T
       if tbl.any fun r => r.method == m && r.pats == pats then (.dup, tbl)
       else (.ok, tbl ++ [{ method := m, pats := pats, h := h }])
 
+/-- registration through `engine.bindRoutes`: the routes are registered in order and the first rejected one
+aborts the start-up (its verdict is reported); the routes before it are in the table. -/
+def bindTable (tbl : Table) : List Reg → Table × RegVerdict
+  | [] => (tbl, .ok)
+  | (m, p, item) :: rest =>
+    match register tbl m p item with
+    | (.ok, tbl') => bindTable tbl' rest
+    | (v, _) => (tbl, v)
+
+/-! ### the monitor, on canonical (parsed) observations -/
+
+/-- one served request as the harness saw it. -/
+inductive Obs where
+  | hit (h : H) (vars : List (String × String))   -- a route handler ran; `pathvar.Vars` (any order)
+  | notAllowed (allow : List String)                -- 405 written by the router, the Allow header's methods
+  | notFound                                        -- 404 written by the built-in not-found handler
+  | customNA (h : H)                                -- the custom not-allowed handler `h` ran
+  | customNF (h : H)                                -- the custom not-found handler `h` ran
+  | other (s : String)                              -- anything else (several handlers, another status, …)
+  deriving Repr, DecidableEq
+
+/-- the custom handlers configured by the user (`none` = built-in behaviour). -/
+structure Custom where
+  nf : Option H := none
+  na : Option H := none
+  deriving Repr, DecidableEq
+
+def sameSet {α} [BEq α] (a b : List α) : Bool := a.all b.contains && b.all a.contains
+
+/-- the property's verdict on a dispatch to handler `h` with variables `vars`: some admissible route has this
+handler, and the variables are exactly its bound segments (for a pattern that repeats a name: every
+delivered pair is one of the bound ones). -/
+def hitOk (tbl : Table) (m : String) (toks : List String) (h : H) (vars : List (String × String)) : Bool :=
+  (admissible tbl m toks).any fun r =>
+    r.h == h &&
+      (if distinctNames r.pats then sameSet vars (binds r.pats toks)
+       else vars.all (binds r.pats toks).contains)
+
+inductive Verdict where
+  | ok
+  | notUnique                         -- the hypothesis holds but two different routes are admissible
+  | noRouteMatches                    -- dispatched although no route of the method matches
+  | wrongRoute (adm : List Route)     -- dispatched, but not to an admissible route with its bound segments
+  | notDispatched (r : Route)         -- not dispatched although `r` matches
+  | expected (e : Expect)             -- 405/404 expected (as `e` says), something else observed
+  deriving Repr, DecidableEq
+
+/-- **the monitor**: the property's verdict on one observation of one request
+(`toks` = cleaned request path, `none` when the path is not rooted). -/
+def monitorObs (tbl : Table) (hyp : Bool) (c : Custom) (m : String) (toks : Option (List String)) (o : Obs) :
+    Verdict :=
+  let cs := match toks with | some t => candidates tbl m t | none => []
+  let adm := match toks with | some t => admissible tbl m t | none => []
+  match o with
+  | .hit h vars =>
+    if hitOk tbl m (toks.getD []) h vars && toks.isSome then
+      if hyp && !(adm.all fun a => adm.all fun b => a == b) then .notUnique else .ok
+    else if cs.isEmpty then .noRouteMatches
+    else .wrongRoute adm
+  | o =>
+    match expect tbl m toks with
+    | .handler r => .notDispatched r
+    | .notAllowed a =>
+      let good := match c.na, o with
+        | none, .notAllowed a' => sameSet a' a
+        | some h, .customNA h' => h == h'
+        | _, _ => false
+      if good then .ok else .expected (.notAllowed a)
+    | .notFound =>
+      let good := match c.nf, o with
+        | none, .notFound => true
+        | some h, .customNF h' => h == h'
+        | _, _ => false
+      if good then .ok else .expected .notFound
+
+/-! ### `search.Tree` used directly with raw (uncleaned) strings -/
+
+/-- the route a raw token list denotes: a single trailing empty element (trailing slash) is dropped. -/
+def normToks : List String → List String
+  | t :: r :: rs => if r = "" ∧ rs = [] then [t] else t :: normToks (r :: rs)
+  | l => l
+
+/-- the key of a raw route string: its elements without one trailing slash; the root is the empty key. -/
+def rawKey (route : String) : List String :=
+  if normToks (toksOf route) = [""] then [] else normToks (toksOf route)
+
+/-- a stored key matches a raw token list: segment by segment, or — when the raw list ends with an empty
+element (trailing slash) — segment by segment without it. -/
+def matchesRawB (ks toks : List String) : Bool :=
+  matchesP ks toks || (toks.getLast? == some "" && matchesP ks toks.dropLast)
+
+/-- what the registration rule says for a raw `Tree.Add(route, item)` on a tree holding the keys `keys`. -/
+def rawAddVerdict (keys : List (List String)) (route : String) (item : Option H) : String :=
+  if !rooted route then "notfromroot"
+  else if item.isNone then "empty"
+  else if (toksOf route).dropLast.contains "" then "dupslash"
+  else if keys.contains (rawKey route) then "dup" else "ok"
+
 end Spec
 end GoZero.C09
